@@ -46,6 +46,7 @@ def fmt_c(it, fmt, args):
             flags = flags.replace('*', str(args[ai]), 1); ai += 1
         a = args[ai]; ai += 1
         if conv in ('llu', 'lu', 'u', 'hu', 'd'):
+            if a is UNINIT: raise Terminal('indeterminate-output', 'a value that was never written (malloc contents) is printed with %%%s' % conv)
             if not isinstance(a, int): raise Unsupported('printf of %r' % (a,))
             out.append(str(a))
         elif conv == 'c':
@@ -337,7 +338,7 @@ def rule_emitdata(chk, prog, tier):
             if outcome != 'return':
                 if outcome in ('unsupported', 'paths'):
                     raise AnalysisBroken('emitdata %s: %s %s' % (key, outcome, val))
-                r.instance(False, 'image:' + key, 'qbe.c:emitdata', 'a valid constant initialiser list is rejected or trips an assertion: %s %s' % (outcome, val)); continue
+                r.instance(False, 'image:' + key, 'qbe.c:emitdata', 'a valid constant initialiser list is rejected, trips an assertion or prints indeterminate bytes: %s %s' % (outcome, val)); continue
             size, align, inits = case
             try:
                 hdr, img = decode_data(val)
